@@ -116,6 +116,8 @@ type FT struct {
 	axUsed  map[string]bool
 	finfo   []factInfo
 	covers  []cover
+	pgMods  map[*ssa.Function]map[string]bool // pass-1 result: state written by the callback of a query.Paginate call
+	pgCount map[*ssa.Function]int              // ordinal of Paginate calls per function under translation
 	pendingAlloc *ssa.BasicBlock // allocation site of the cell written by the next stateSet (nil = unknown / pre-existing)
 	axSkipped map[string]string
 }
@@ -134,6 +136,7 @@ type site struct {
 }
 
 type frame struct {
+	cloOverride *Closure // closure to bind when inlining a callback that is not the value of the current call instruction
 	ft      *FT
 	fn      *ssa.Function
 	c       *Contract
@@ -300,16 +303,18 @@ func isRepoFunc(fn *ssa.Function) bool {
 // TranslateFunction produces the obligations for fn against its contract.
 func (g *Gen) TranslateFunction(fn *ssa.Function, c *Contract) *FT {
 	var loopMod map[*ssa.BasicBlock]map[string]bool
+	var pgMods map[*ssa.Function]map[string]bool
 	frameOK := map[*ssa.BasicBlock]map[string]int{}
 	var ft *FT
 	for pass := 1; pass <= 2; pass++ {
 		ft = &FT{g: g, fn: fn, name: ftName(fn, c), c: c, ssorts: map[string]string{}, assumed: map[string]bool{}, havoced: map[string]bool{}, inlined: map[string]bool{},
 			modular: map[string]bool{}, kindCnt: map[string]int{}, loopMod: loopMod, pass: pass, written: map[*ssa.BasicBlock]map[string]bool{}, init0: map[string]string{}, axUsed: map[string]bool{},
-			oldWrite: map[*ssa.BasicBlock]map[string]bool{}, freshIn: map[*ssa.BasicBlock]map[string][]*ssa.BasicBlock{}, frameOK: frameOK}
+			oldWrite: map[*ssa.BasicBlock]map[string]bool{}, freshIn: map[*ssa.BasicBlock]map[string][]*ssa.BasicBlock{}, frameOK: frameOK, pgMods: pgMods, pgCount: map[*ssa.Function]int{}}
 		ft.run()
 		if pass == 1 {
 			loopMod = ft.computeLoopMods()
 			frameOK = ft.frameOK
+			pgMods = ft.computePgMods()
 		}
 	}
 	return ft
